@@ -178,8 +178,22 @@ def canon_text(text: str) -> str:
         return text
 
 
+def _expand(e: ast.expr) -> ast.expr:
+    """`x in (L or ())`  is  `L and x in L`  (an empty literal holds nothing);  `x not in (L or ())`  is its negation."""
+    if isinstance(e, ast.Compare) and len(e.ops) == 1 and isinstance(e.ops[0], (ast.In, ast.NotIn)) and isinstance(e.comparators[0], ast.BoolOp) \
+            and isinstance(e.comparators[0].op, ast.Or) and len(e.comparators[0].values) == 2:
+        L, empty = e.comparators[0].values
+        is_empty = (isinstance(empty, (ast.Tuple, ast.List, ast.Set)) and not empty.elts) or (isinstance(empty, ast.Dict) and not empty.keys) or \
+            (isinstance(empty, ast.Call) and norm(empty.func) in ("set", "frozenset", "tuple", "list", "dict") and not empty.args and not empty.keywords)
+        if is_empty and isinstance(L, (ast.Name, ast.Attribute)):
+            pos = ast.BoolOp(op=ast.And(), values=[L, ast.Compare(left=e.left, ops=[ast.In()], comparators=[L])])
+            return pos if isinstance(e.ops[0], ast.In) else ast.UnaryOp(op=ast.Not(), operand=pos)
+    return e
+
+
 def nnf(e: ast.expr, neg: bool = False) -> str:
     """Negation normal form as a canonical string: negations pushed to the atoms (De Morgan), operands sorted."""
+    e = _expand(e)
     if isinstance(e, ast.UnaryOp) and isinstance(e.op, ast.Not):
         return nnf(e.operand, not neg)
     if isinstance(e, ast.BoolOp):
@@ -192,6 +206,7 @@ def nnf(e: ast.expr, neg: bool = False) -> str:
 
 def facts(e: ast.expr, holds: bool = True) -> set:
     """Canonical literals that are certainly true when `e` evaluates to `holds` (conjunctions split, De Morgan applied)."""
+    e = _expand(e)
     if isinstance(e, ast.UnaryOp) and isinstance(e.op, ast.Not):
         return facts(e.operand, not holds)
     if isinstance(e, ast.BoolOp):
